@@ -108,7 +108,7 @@ func TestVerifC44(t *testing.T) {
 			}
 			if faulty {
 				// errors that make the session fail; accepted blobs are then not required to be durable
-				cl.F = simbe.Faults{ErrBefore: 15, ErrAfter: 15, Budget: 2, OnlyTypes: map[backend.FileType]bool{backend.PackFile: true, backend.IndexFile: true}}
+				cl.F = simbe.Faults{ErrBefore: 70, ErrAfter: 40, Budget: 2, OnlyTypes: map[backend.FileType]bool{backend.PackFile: true, backend.IndexFile: true}}
 			}
 			type result struct {
 				id    restic.ID
@@ -175,6 +175,31 @@ func TestVerifC44(t *testing.T) {
 					r.Fail("session", "session-error", "upload session failed without any injected fault: %v", sessionErr)
 				}
 				r.Count("sessions_failed_by_fault", 1)
+				// also after a failed session: whatever index entry became durable must name a pack
+				// that is durable and really holds the blob there ("uploaded and then indexed")
+				fv := model.View(repo.Key(), store.Clone(), false)
+				var ks []string
+				for k := range fv.Indexed {
+					ks = append(ks, k)
+				}
+				sort.Strings(ks)
+				for _, k := range ks {
+					for _, e := range fv.Indexed[k] {
+						pc := fv.Packs[e.Pack]
+						ok := false
+						if pc != nil {
+							for _, b := range pc.Blobs {
+								if b.Key() == k && b.Offset == e.Offset && b.Length == e.Length {
+									ok = true
+								}
+							}
+						}
+						if !ok {
+							r.Fail("indexed-before-uploaded", "index-names-missing-pack", "after a failed session a durable index entry names blob %s in pack %s, which is not (yet) in the store with that blob", k[:13], e.Pack[:8])
+							return
+						}
+					}
+				}
 				return
 			}
 			r.Count("sessions_ok", 1)
